@@ -64,14 +64,16 @@ RULES = {
            "non-trivial = at least two different kinds presented; distinct = hash of case and kinds.",
     "C04": "case = history of 8..60 events over 2..5 replicas (local writes with skewed clocks and unique contents, broadcast "
            "deliver/drop/duplicate in any order, sessions cut after k messages, restarts of file-backed replicas), then closing "
-           "rounds over a line / star / ring / random tree. non-trivial = at least one fault and two accepted writes; distinct = hash of the history.",
+           "rounds over a line / star / ring / random tree; one light history in three observed sparsely, with calls the store must refuse between the writes. non-trivial = at least one fault and two accepted writes; distinct = hash of the history."
+           " stack mode: 2..3 complete docs nodes on loopback (real gossip, QUIC sessions, downloads), 6..18 client-API steps per history (writes and deletions under the clock hook, joins by ticket, leave / rejoin, pauses), then closing rounds of kicked sessions until every dump equals the merge; non-trivial = something was superseded or a node left and rejoined.",
     "C05": "case = replica state (2..20 offers incl. prefix deletions, second document in the same store) with 250 (quick) / 600 "
            "random queries from the product kind x author(any,each,absent) x key filter(held keys, prefixes, ..FF, successor) x sort x "
            "direction x include-empty x offset{0,1,2,n,n+1} x limit{none,0,1,2,n}. non-trivial = state with >=2 entries; distinct = hash of the state.",
     "C06": "case = history of 6..25 store calls (inserts and deletes with dense prefix relations, remote inserts, imports, policy, peers, "
            "flush, scans, document removal); images: after every call, at every internal store access with the age-based commit "
            "forced at every access / at one access, and SIGKILLed child processes running 400-call histories. non-trivial = history "
-           "containing a call that both prunes and writes (images), a kill that hit a running history (kill); distinct = hash of the history / kill point.",
+           "containing a call that both prunes and writes (images), a kill that hit a running history (kill); distinct = hash of the history / kill point. "
+           "upgrade mode: the stored history is copied into a file of the redb-2.x on-disk format (with or without derived tables) and opened by a child that strace kills on entry to its k-th file-system call (all calls when <= 32 quick / 400 thorough, else a sample plus every rename / link / unlink); each kill point is one evaluation.",
     "C07": "case = 4..30 random steps over three documents (import read/write, open, close, reopen, local insert/delete, valid remote "
            "insert, export, foreign merge), through the store (2/3) or the actor (1/3). non-trivial = a read capability was upgraded; distinct = hash of the trace.",
     "C08": "case = two replica-state entry sets (closed form of random offers, " + _GEN + ") + a neighbouring document; primitives on "
@@ -82,7 +84,7 @@ RULES = {
            "lengths 0..69, random strings), protocol messages, head reports and tickets, capabilities / filters / policies / queries. "
            "non-trivial = a real, well-formed value that was round-tripped; distinct = hash of its encoding.",
     "C10": "script mode: every sequence of length <=3 (quick) / <=4 over 15 adversarial frames, against the initiator and against the "
-           "acceptor with 4 accept decisions (exhaustive per run when all shards finish; evidence counts the sequences done). faults "
+           "acceptor with 5 accept decisions (allow, three rejections, allow-once-then-already-syncing) (exhaustive per run when all shards finish; evidence counts the sequences done). faults "
            "mode: generated pairs x every frame index x {close replica, sync off, actor shutdown, cut, cut inside frame} x side. "
            "net mode (workload shared with C11): a complete docs node on loopback against a hand-driven peer; requests for a document the node holds but does not sync are declined and must leave that document without stored sync peers and without entries. shutdown-race mode: 2..6 clients issuing requests while the actor is shut down. non-trivial = every sequence / pair with >=3 frames; distinct = hash.",
     "C11": "case = random schedule (<=6 dials, <=14 quick / 24 thorough events) over two or three real live actors on a fresh document: "
@@ -95,7 +97,8 @@ RULES = {
            "accepted sessions, a decline after every accepted session was reported finished, a request for a document not being synced not declined as NotFound. non-trivial = a request declined while a session is held.",
     "C12": "case = 5..25 steps on one store actor: subscribe / unsubscribe / drop receiver (<=4 subscribers), policy change, local insert / "
            "delete, single remote entry (direct or as message; valid, superseded, forged), multi-entry messages with forged entries, "
-           "sessions with a local write between two messages. non-trivial = subscriber churn happened and events were produced; distinct = hash of the trace.",
+           "sessions with a local write between two messages, another document borrowing a subscriber channel and being closed. non-trivial = subscriber churn happened and events were produced; distinct = hash of the trace."
+           " stack mode: 2..3 complete docs nodes on loopback (real gossip, QUIC sessions, downloads), 6..18 client-API steps per history (writes and deletions under the clock hook, joins by ticket, leave / rejoin, pauses), then closing rounds of kicked sessions until every dump equals the merge; non-trivial = something was superseded or a node left and rejoined. Judged there: the event streams of the nodes.",
     "C13": "case kinds: (2/3) history of 3..14 offers per document on two neighbouring documents in random arrival order with removal "
            "and re-creation, heads and 3 probe reports checked after every step; (1/3) head set of 0..40 authors over 1..6 timestamps "
            "of different varint widths, no limit and 12 limits. non-trivial = decreasing arrival happened / timestamps shared; distinct = hash.",
@@ -104,14 +107,15 @@ RULES = {
            "sequential: some request had to be refused; concurrent: operations of different clients overlapped; distinct = hash of the history.",
     "C15": "case kinds: matcher (policy x all keys up to length 3 over the alphabet + filter-derived keys), persistence (set/get/reopen over "
            "two documents and a missing one), filter text round-trips and arbitrary strings, event flags from a real actor; live mode: 4..16 steps of policy change / remote insert with its own content hash (sender has or lacks the content) / neighbour announcement against a real live actor (H7), non-trivial there = a history with selected and excluded entries. "
-           "non-trivial = policy that selects some keys and not others / >=2 steps / filter round-tripped; distinct = hash.",
+           "non-trivial = policy that selects some keys and not others / >=2 steps / filter round-tripped; distinct = hash."
+           " stack mode: 2..3 complete docs nodes on loopback (real gossip, QUIC sessions, downloads), 6..18 client-API steps per history (writes and deletions under the clock hook, joins by ticket, leave / rejoin, pauses), then closing rounds of kicked sessions until every dump equals the merge; non-trivial = something was superseded or a node left and rejoined. Judged there: content of entries a node's policy does not select.",
     "C16": "case = store with 3..5 documents from a pool of byte-neighbour ids, filled with entries, policies and peers; 2..8 steps of "
            "removal (1/3 attempted while open; on file stores half of them cut by the age-based commit at a random store access, with a crash image checked), re-creation, late operations on the removed document, writes; engine mode: a complete docs engine on a database file with a protect handler, 3..12 API steps (set_bytes, set_hash, del, close+drop, create) with the harness calling the protect callback as the blob store's collector would (exact set on the healthy engine; after the engine was shut down or dropped: Abort or the exact set). non-trivial = at least one removal succeeded; distinct = hash of the trace.",
     "C17": "case = 1..40 registrations over 1..8 peers and two documents (read-only or writable) with reopen, unknown documents and interleaved other store operations (capability import, policy, listing, open/close, removal and re-import). non-trivial = an eviction "
-           "and a refresh both happened; distinct = hash of the trace.",
+           "and a refresh both happened; distinct = hash of the trace. On file stores: one reopen in three through a redb-2.x format file, one registration in three cut by the age-based commit with a crash image.",
     "C18": "case = file store with 1..3 documents (1..14 offers each), flushed; head table / by-key index / both / none deleted with plain "
            "redb (half of the files without the index also get the old namespaces-1 table); 1..3 reopen cycles with heads, 60 key-ordered queries per document and all observables checked. "
-           "non-trivial = a table was deleted; distinct = hash of deleted tables and content.",
+           "non-trivial = a table was deleted; distinct = hash of deleted tables and content. One file in four additionally in the redb-2.x on-disk format.",
 }
 
 ASSUMPTIONS = {p: ["the executable replica specification in harness/src/model.rs (self-checked: sequential form == closed form on every case)",
@@ -124,4 +128,5 @@ ASSUMPTIONS["C09"] = ["the hand-written postcard encoder in harness/src/wire.rs 
 ASSUMPTIONS["C10"] = ["an in-memory duplex pipe models the QUIC stream; a cut is an orderly end-of-stream (a transport reset would be an error on both sides)"]
 ASSUMPTIONS["C11"] = ["the network model imposes only causality (a session end needs its Allow, a reply needs its Reject); completion handlers are invoked directly rather than through the live actor's select loop",
                       "net mode: the live actor frees the slot before it emits the SyncFinished event of a session (read off on_sync_finished); loopback QUIC stands for the network"]
+ASSUMPTIONS["C06"].append("upgrade mode: strace delivers SIGKILL on entry to the chosen call, i.e. after the previous call completed; kill points are system-call boundaries of the single-threaded open")
 ASSUMPTIONS["C17"] = ["two consecutive registrations obtain distinct wall-clock nanosecond readings"]
